@@ -138,7 +138,11 @@ Proof.
         - destruct (N.eqb_spec (rr_type r) 50) as [E50|E50]; [|discriminate].
           rewrite E50, R50 in Es. inversion Es; subst s.
           eapply parse_rdata_last_checked; [exact F50|exact Ep]. }
-      destruct (bitmap_iter_total _ Hb) as [l El]. rewrite El. cbn. exact I.
+      destruct (bitmap_iter_total _ Hb) as [l El]. rewrite El. cbn [bind].
+      assert (Hc : forall ts, exists c, contains_all (last_bytes v) ts = Ok c).
+      { induction ts as [|t ts [c0 Ec0]]; cbn [contains_all]; [eauto|].
+        destruct (bitmap_contains_total _ t Hb) as [b Eb']. rewrite Eb', Ec0. cbn [bind]. eauto. }
+      destruct (Hc probe_types) as [c1 Ec1]. rewrite Ec1. cbn. exact I.
     + (* SVCB / HTTPS: the parameters *)
       assert (Hb : rest_check KSvcParams (last_bytes v) = None).
       { destruct (N.eqb_spec (rr_type r) 64) as [E64|E64].
